@@ -5,6 +5,7 @@ package bigbuff
 import (
 	"errors"
 	"fmt"
+	"reflect"
 	"runtime"
 	"sort"
 	"sync"
@@ -357,9 +358,10 @@ func c14GatedCase(h *hctx, id int) bool {
 }
 
 func c14QueueLen(w *Workers) int {
-	w.mutex.Lock()
-	defer w.mutex.Unlock()
-	return len(w.queue)
+	mu := fld[sync.Mutex](w, "mutex")
+	mu.Lock()
+	defer mu.Unlock()
+	return fldLen(w, "queue", reflect.Slice)
 }
 
 // ---------------------------------------------------------------------------------------------------- C14K2
@@ -654,7 +656,7 @@ func c14WaitOrder(h *hctx) (achieved bool, res [3]int, hung bool) {
 		finish()
 		return false, res, hung
 	}
-	m := &w.mutex
+	m := fld[sync.Mutex](w, "mutex")
 	waiters := func(n int32) func() bool {
 		return func() bool { s := c14MuState(m); return s&c14MuLocked != 0 && s>>c14MuShift == n }
 	}
